@@ -36,7 +36,14 @@ def h_ops(run, cfg):
     w = O.build(run, cfg)
     O.fund(run, w, prior=True)
     O.check_balance_sheet(run, w, '@pre')
-    O.do_ops(run, w, cfg['ops'], after=lambda k, op, info: O.check_balance_sheet(run, w))
+    def after(k, op, info):
+        for n, v in getattr(w, 'leaf_first', []):
+            run.check_near(v, n.value, O.EPS_MONEY if hasattr(O, 'EPS_MONEY') else 1e-6, 'value-same-whichever-node-is-read-first', n.full_name)
+        O.check_balance_sheet(run, w)
+        if cfg.get('twice'):
+            # a second look, now that every node has been read once: the picture must not depend on which node was looked at first
+            O.check_balance_sheet(run, w, '@second-look')
+    O.do_ops(run, w, cfg['ops'], after=after)
 
 
 HARNESSES = {'ops': h_ops}
@@ -105,8 +112,10 @@ def plan(tier):
             tasks.append(dict(harness='ops', cfg=cfg, opts=opts))
     # three levels (root -> mid -> leaf -> a, built bottom-up): trades at the deepest node, observed straight away and after a date change
     for seq in ((['transact', 'a', 'mid/leaf'], ['read']), (['transact', 'a', 'mid/leaf'], ['next']), (['next'], ['transact', 'a', 'mid/leaf']),
-                (['transact', 'a', 'mid/leaf'], ['adjust']), (['alloc', 'a', 'mid/leaf'], ['read']), (['transact', 'a', 'mid/leaf'], ['transact', 'c'])):
+                (['transact', 'a', 'mid/leaf'], ['adjust']), (['alloc', 'a', 'mid/leaf'], ['read']), (['transact', 'a', 'mid/leaf'], ['transact', 'c']),
+                (['transact_px', 'a', 99.0, 'mid/leaf'], ['read']), (['next'], ['transact_px', 'a', 101.25, 'mid/leaf'])):
         for cfg in _cfgs('S5', seq, 0, tier)[:1]:
+            cfg.update(twice=1, leaf_first=1)
             tasks.append(dict(harness='ops', cfg=cfg, opts=opts))
     # cash-only sub-strategy, no costs: capital moved between nodes changes cash rows but no value (second operation on a date)
     for seq in ((['adjust'], ['alloc', 'sub']), (['alloc', 'sub'], ['alloc', 'sub']), (['alloc', 'sub'], ['next']), (['adjust'], ['alloc', 'a', 'sub']),
